@@ -377,6 +377,19 @@ func Inject(epfd int, evs []syscall.EpollEvent) {
 	<-id
 }
 
+// InjectAsync delivers the batch like Inject but returns at once; the channel is closed when the poller
+// has processed the whole batch and re-entered EpollWait (the caller can watch for progress meanwhile).
+func InjectAsync(epfd int, evs []syscall.EpollEvent) <-chan struct{} {
+	ch, id := chans(epfd)
+	done := make(chan struct{})
+	go func() {
+		ch <- evs
+		<-id
+		close(done)
+	}()
+	return done
+}
+
 // InjectTimeout is Inject with a bound on the wait for the acknowledgement; false = the poller did
 // not come back in time (it is stuck in the batch: a hang of the event loop body).
 func InjectTimeout(epfd int, evs []syscall.EpollEvent, d time.Duration) bool {
